@@ -86,7 +86,9 @@ def build(inst, rnd=None):
         if k == 'DCMotor':
             kw = {}
             if e.get('i0') is not None:
-                kw = dict(no_load_electric_current=q('Current', e['i0']), maximum_electric_current=q('Current', e['imax']))
+                kw['no_load_electric_current'] = q('Current', e['i0'])
+            if e.get('imax') is not None:
+                kw['maximum_electric_current'] = q('Current', e['imax'])       # (either datum alone is legal: the current is then not computable)
             o = DCMotor(name, J, q('AngularSpeed', e['w0']), q('Torque', e['Tmax']), **kw)
         elif k == 'Flywheel':
             o = Flywheel(name, J)
@@ -136,6 +138,10 @@ def build(inst, rnd=None):
         th = angular_position.to('rad').value
         w = angular_speed.to('rad/s').value
         val = ld['c0'] + ld['c1'] * w + ld['c2'] * th + ld['c3'] * t + (ld['cs'] if t >= ld['ts'] else 0.0)
+        if inst.get('numpy'):
+            import numpy as np
+            val = np.float64(val)              # load functions written with numpy (np.sin, np.exp ...) return numpy scalars: the
+                                               # documentation's own examples do; every derived quantity then holds numpy scalars
         ret = Torque(val, 'Nm').to(tq_unit)
         calls.append({'at': len(pt_holder[0].time) if pt_holder else 0, 't': si_of(time, 'Time'), 'pos': si_of(angular_position), 'spd': si_of(angular_speed),
                       'ret': si_of(ret)})
@@ -144,7 +150,7 @@ def build(inst, rnd=None):
         objs[-1].external_torque = external_torque
     pt = Powertrain(objs[0])
     pt_holder.append(pt)
-    return dict(objs=objs, pt=pt, motor=objs[0], calls=calls, q=q, declare=declare)
+    return dict(objs=objs, pt=pt, motor=objs[0], calls=calls, q=q, declare=declare, numpy=bool(inst.get('numpy')))
 
 
 # ------------------------------------------------------------------ static description as the real objects hold it
@@ -156,9 +162,10 @@ def static_desc(objs):
              'th': '0', 'alpha': N, 'dref': N, 'role': 'none', 'hasCurrent': False,
              'ratioAttr': N, 'effAttr': '1', 'sl': N, 'adv': sorted(KEY[v] if v != 'pwm' else 'pwm' for v in o.time_variables.keys())}
         if isinstance(o, DCMotor):
-            d.update(Tmax=si_of(o.maximum_torque), w0=si_of(o.no_load_speed), hasCurrent=bool(o.electric_current_is_computable),
-                     i0=si_of(o.no_load_electric_current) if o.electric_current_is_computable else N,
-                     imax=si_of(o.maximum_electric_current) if o.electric_current_is_computable else N)
+            both = o.no_load_electric_current is not None and o.maximum_electric_current is not None      # (from the data, not from the derived flag)
+            d.update(Tmax=si_of(o.maximum_torque), w0=si_of(o.no_load_speed), hasCurrent=bool(both),
+                     i0=si_of(o.no_load_electric_current) if both else N,
+                     imax=si_of(o.maximum_electric_current) if both else N)
         else:
             d['ratioAttr'] = num_s(o.master_gear_ratio)
             d['effAttr'] = num_s(o.master_gear_efficiency)
@@ -332,6 +339,9 @@ def make_stop(b, s, holder):
     op = {'gt': StopCondition.greater_than, 'ge': StopCondition.greater_than_or_equal_to, 'eq': StopCondition.equal_to,
           'lt': StopCondition.less_than, 'le': StopCondition.less_than_or_equal_to}[s['op']]
     thr = q(kind, s['thr'])
+    if b.get('numpy'):
+        import numpy as np
+        thr = type(thr)(np.float64(thr.value), thr.unit)        # a threshold taken from a numpy array
     return StopCondition(sensor=TracedSensor(inner, kind), threshold=thr, operator=op), si_of(thr, kind)
 
 
